@@ -18,11 +18,15 @@
 (***************************************************************************)
 EXTENDS Naturals, Integers, Sequences, FiniteSets, TLC
 
-CONSTANTS Depth, Delays, Deadline, MaxTime
+CONSTANTS Depth, Delays, Deadline, MaxTime, GateBudget
 
 Hops == 1..Depth
-VARIABLES now, call, handler, link, hdl, htr, hspan, nextSpan, delay
-vars == <<now, call, handler, link, hdl, htr, hspan, nextSpan, delay>>
+VARIABLES now, call, handler, link, hdl, htr, hspan, nextSpan, delay, pend, gate, gb
+vars == <<now, call, handler, link, hdl, htr, hspan, nextSpan, delay, pend, gate, gb>>
+(* pend[k]    : what the client of hop k has to write while its sink is not ready (back-pressure):  *)
+(*              messages wait here, in order, until the gate of hop k is open (G-C03/G-C14: a       *)
+(*              cancellation or request that cannot be written yet is kept and written later)        *)
+(* gate[k]    : the sink of hop k's client is ready;  gb: how often the environment may still close one *)
 (* call[k]    : "none" | "open" | "dropped" | "done"     the call into hop k                       *)
 (* handler[k] : "none" | "running" | "aborted" | "done"                                             *)
 (* link[k]    : Seq of <<kind, readyAt, dl, tr, span>> travelling down link k                        *)
@@ -34,43 +38,56 @@ Init ==
   /\ hdl = [k \in Hops |-> -1] /\ htr = [k \in Hops |-> 0] /\ hspan = [k \in Hops |-> 0]
   /\ nextSpan = 100
   /\ delay \in [Hops -> Delays]
+  /\ pend = [k \in Hops |-> <<>>] /\ gate = [k \in Hops |-> TRUE] /\ gb = GateBudget
 
 At(k) == IF now + delay[k] > MaxTime THEN MaxTime ELSE now + delay[k]
-Send(k, kind, dl, tr, span) == link' = [link EXCEPT ![k] = Append(@, <<kind, At(k), dl, tr, span, now>>)]
+(* messages are first queued at the sending client (fields: kind, -, deadline, trace id, span, -) *)
+Send(k, kind, dl, tr, span) == pend' = [pend EXCEPT ![k] = Append(@, <<kind, 0, dl, tr, span, 0>>)]
+(* the client of hop k writes its next message once its sink is ready; the deadline leaves as remaining time *)
+Write(k) ==
+  /\ gate[k] /\ pend[k] # <<>>
+  /\ LET m == Head(pend[k]) IN
+       link' = [link EXCEPT ![k] = Append(@, <<m[1], At(k), m[3], m[4], m[5], now>>)]
+  /\ pend' = [pend EXCEPT ![k] = Tail(@)]
+  /\ UNCHANGED <<now, call, handler, hdl, htr, hspan, nextSpan, delay, gate, gb>>
+CloseGate(k) == gate[k] /\ gb > 0 /\ gate' = [gate EXCEPT ![k] = FALSE] /\ gb' = gb - 1
+                /\ UNCHANGED <<now, call, handler, link, hdl, htr, hspan, nextSpan, delay, pend>>
+OpenGate(k) == ~gate[k] /\ gate' = [gate EXCEPT ![k] = TRUE]
+               /\ UNCHANGED <<now, call, handler, link, hdl, htr, hspan, nextSpan, delay, pend, gb>>
 
 Start ==
   /\ call[1] = "none"
   /\ call' = [call EXCEPT ![1] = "open"]
-  /\ Send(1, "req", Deadline, 7, 201) /\ UNCHANGED nextSpan
-  /\ UNCHANGED <<now, handler, hdl, htr, hspan, delay>>
+  /\ Send(1, "req", Deadline, 7, 201)
+  /\ UNCHANGED <<now, handler, link, hdl, htr, hspan, nextSpan, delay, gate, gb>>
 
 (* the server channel of hop k reads the next item of its link *)
 Read(k) ==
   /\ link[k] # <<>> /\ Head(link[k])[2] <= now
   /\ LET m == Head(link[k]) rest == Tail(link[k]) IN
-     IF m[1] = "req" THEN
-       \* G-C07: the deadline travels as remaining time and is re-based on arrival
-       LET te == m[6]
-           dlp == now + (IF m[3] > te THEN m[3] - te ELSE 0)
-       IN
-       /\ handler' = [handler EXCEPT ![k] = "running"]
-       /\ hdl' = [hdl EXCEPT ![k] = dlp]
-       /\ htr' = [htr EXCEPT ![k] = m[4]] /\ hspan' = [hspan EXCEPT ![k] = 100 + k]
-       /\ IF k < Depth
-            THEN /\ call' = [call EXCEPT ![k + 1] = "open"]
-                 /\ link' = [link EXCEPT ![k] = rest, ![k + 1] = Append(@, <<"req", At(k + 1), dlp, m[4], 201 + k, now>>)]
-                 /\ UNCHANGED nextSpan
-            ELSE /\ link' = [link EXCEPT ![k] = rest] /\ UNCHANGED <<nextSpan, call>>
-       /\ UNCHANGED <<now, delay>>
-     ELSE \* Cancel: G-C04 aborts a running handler, G-drop drops its nested call, G-C03 cancels it on the next link
-       /\ IF handler[k] = "running"
-            THEN /\ handler' = [handler EXCEPT ![k] = "aborted"]
-                 /\ IF k < Depth /\ call[k + 1] = "open"
-                      THEN /\ call' = [call EXCEPT ![k + 1] = "dropped"]
-                           /\ link' = [link EXCEPT ![k] = rest, ![k + 1] = Append(@, <<"cancel", At(k + 1), 0, m[4], m[5], now>>)]
-                      ELSE /\ link' = [link EXCEPT ![k] = rest] /\ UNCHANGED call
-            ELSE /\ link' = [link EXCEPT ![k] = rest] /\ UNCHANGED <<handler, call>>
-       /\ UNCHANGED <<now, hdl, htr, hspan, nextSpan, delay>>
+     /\ link' = [link EXCEPT ![k] = rest]
+     /\ IF m[1] = "req" THEN
+          \* G-C07: the deadline travels as remaining time and is re-based on arrival
+          LET te == m[6]
+              dlp == now + (IF m[3] > te THEN m[3] - te ELSE 0)
+          IN
+          /\ handler' = [handler EXCEPT ![k] = "running"]
+          /\ hdl' = [hdl EXCEPT ![k] = dlp]
+          /\ htr' = [htr EXCEPT ![k] = m[4]] /\ hspan' = [hspan EXCEPT ![k] = 100 + k]
+          /\ IF k < Depth
+               THEN /\ call' = [call EXCEPT ![k + 1] = "open"]
+                    /\ Send(k + 1, "req", dlp, m[4], 201 + k)
+               ELSE UNCHANGED <<call, pend>>
+        ELSE \* Cancel: G-C04 aborts a running handler, G-drop drops its nested call, G-C03 cancels it on the next link
+          /\ IF handler[k] = "running"
+               THEN /\ handler' = [handler EXCEPT ![k] = "aborted"]
+                    /\ IF k < Depth /\ call[k + 1] = "open"
+                         THEN /\ call' = [call EXCEPT ![k + 1] = "dropped"]
+                              /\ Send(k + 1, "cancel", 0, m[4], m[5])
+                         ELSE UNCHANGED <<call, pend>>
+               ELSE UNCHANGED <<handler, call, pend>>
+          /\ UNCHANGED <<hdl, htr, hspan>>
+  /\ UNCHANGED <<now, nextSpan, delay, gate, gb>>
 
 (* G-C06 + G-drop: the handler of hop k is aborted when its deadline passes *)
 Expire(k) ==
@@ -78,32 +95,35 @@ Expire(k) ==
   /\ handler' = [handler EXCEPT ![k] = "aborted"]
   /\ IF k < Depth /\ call[k + 1] = "open"
        THEN /\ call' = [call EXCEPT ![k + 1] = "dropped"]
-            /\ link' = [link EXCEPT ![k + 1] = Append(@, <<"cancel", At(k + 1), 0, htr[k], 0, now>>)]
-       ELSE UNCHANGED <<call, link>>
-  /\ UNCHANGED <<now, hdl, htr, hspan, nextSpan, delay>>
+            /\ Send(k + 1, "cancel", 0, htr[k], 0)
+       ELSE UNCHANGED <<call, pend>>
+  /\ UNCHANGED <<now, link, hdl, htr, hspan, nextSpan, delay, gate, gb>>
 
 (* the caller abandons the head call: G-C03 puts a Cancel behind the request *)
 Abandon ==
   /\ call[1] = "open"
   /\ call' = [call EXCEPT ![1] = "dropped"]
-  /\ link' = [link EXCEPT ![1] = Append(@, <<"cancel", At(1), 0, 7, 0, now>>)]
-  /\ UNCHANGED <<now, handler, hdl, htr, hspan, nextSpan, delay>>
+  /\ Send(1, "cancel", 0, 7, 0)
+  /\ UNCHANGED <<now, handler, link, hdl, htr, hspan, nextSpan, delay, gate, gb>>
 
 LeafDone ==
   /\ handler[Depth] = "running"
   /\ handler' = [handler EXCEPT ![Depth] = "done"] /\ call' = [call EXCEPT ![Depth] = IF @ = "open" THEN "done" ELSE @]
-  /\ UNCHANGED <<now, link, hdl, htr, hspan, nextSpan, delay>>
+  /\ UNCHANGED <<now, link, hdl, htr, hspan, nextSpan, delay, pend, gate, gb>>
 (* a handler whose nested call is done finishes *)
 Return(k) ==
   /\ k < Depth /\ handler[k] = "running" /\ call[k + 1] = "done"
   /\ handler' = [handler EXCEPT ![k] = "done"] /\ call' = [call EXCEPT ![k] = IF @ = "open" THEN "done" ELSE @]
-  /\ UNCHANGED <<now, link, hdl, htr, hspan, nextSpan, delay>>
+  /\ UNCHANGED <<now, link, hdl, htr, hspan, nextSpan, delay, pend, gate, gb>>
 
-Tick == now < MaxTime /\ now' = now + 1 /\ UNCHANGED <<call, handler, link, hdl, htr, hspan, nextSpan, delay>>
+Tick == now < MaxTime /\ now' = now + 1 /\ UNCHANGED <<call, handler, link, hdl, htr, hspan, nextSpan, delay, pend, gate, gb>>
 
-Next == Start \/ Abandon \/ LeafDone \/ Tick \/ \E k \in Hops : Read(k) \/ Expire(k) \/ Return(k)
+Next == Start \/ Abandon \/ LeafDone \/ Tick
+        \/ \E k \in Hops : Read(k) \/ Expire(k) \/ Return(k) \/ Write(k) \/ CloseGate(k) \/ OpenGate(k)
 Spec == Init /\ [][Next]_vars
-FairSpec == Spec /\ WF_vars(Tick) /\ \A k \in Hops : WF_vars(Read(k)) /\ WF_vars(Expire(k))
+(* a sink that is not ready becomes ready again; it is closed at most GateBudget times *)
+FairSpec == Spec /\ WF_vars(Tick)
+            /\ \A k \in Hops : WF_vars(Read(k)) /\ WF_vars(Expire(k)) /\ WF_vars(Write(k)) /\ WF_vars(OpenGate(k))
 
 SumDelay(k) == IF k = 1 THEN delay[1] ELSE IF k = 2 THEN delay[1] + delay[2] ELSE delay[1] + delay[2] + delay[3]
 (* C07: no hop observes a deadline earlier than the caller's, nor later than it plus accumulated transit *)
